@@ -37,6 +37,13 @@ def gen_program(rng):
         syms.append({"name": f"s{i}", "kind": kind, "home": rng.choice(["a", "a", "b", "exe"]), "size": rng.choice([4, 8, 100, 4096]) if kind == "object" else 0,
                      "align": rng.choice([4, 8, 16, 64]), "weak": rng.random() < 0.15, "alias": rng.random() < 0.15 and kind == "object",
                      "exe_use": rng.choice(["addr", "addr", "call", "none"])})
+        s_ = syms[-1]
+        # a third of the library functions are STT_GNU_IFUNC (what glibc does for strlen, memcpy, ...)
+        # (only in lib a: lib b is linked against lib a, not the other way round, and glibc wants the library that
+        #  refers to an IFUNC symbol to be relocated after the one that defines it)
+        s_["ifunc"] = kind == "func" and s_["home"] == "a" and rng.random() < 0.5
+        if s_["ifunc"]:
+            s_["weak"] = False
     return syms
 
 
@@ -53,7 +60,11 @@ def sources(syms):
         for s in syms:
             if s["home"] == mod:
                 w = "__attribute__((weak)) " if s["weak"] else ""
-                if s["kind"] == "func":
+                if s["kind"] == "func" and s.get("ifunc"):
+                    src.append(f"static int {s['name']}_impl(int x) {{ return x + {hash(s['name']) % 97}; }}")
+                    src.append(f"static int (*{s['name']}_resolver(void))(int) {{ return {s['name']}_impl; }}")
+                    src.append(f"int {s['name']}(int) __attribute__((ifunc(\"{s['name']}_resolver\")));")
+                elif s["kind"] == "func":
                     src.append(f"{w}int {s['name']}(int x) {{ return x + {hash(s['name']) % 97}; }}")
                 else:
                     src.append(f"{w}int {s['name']}[{max(1, s['size'] // 4)}] __attribute__((aligned({s['align']}))) = {{ {hash(s['name']) % 1000 + 1} }};")
@@ -74,6 +85,8 @@ def sources(syms):
                     src.append(f"int geta_{mod}_{s['name']}(void) {{ return {s['name']}_alias[0]; }}")
             else:
                 src.append(f"int call_{mod}_{s['name']}(int x) {{ return {s['name']}(x); }}")
+                # ... and through the address this module computes for it
+                src.append(f"int callp_{mod}_{s['name']}(int x) {{ int (*volatile p)(int) = {s['name']}; return p(x); }}")
         files[mod] = src
     m = files["exe"]
     for mod in ("a", "b"):
@@ -84,7 +97,7 @@ def sources(syms):
                 if s["alias"] and s["home"] == mod:
                     m.append(f"extern int geta_{mod}_{s['name']}(void);")
             else:
-                m.append(f"extern int call_{mod}_{s['name']}(int);")
+                m.append(f"extern int call_{mod}_{s['name']}(int); extern int callp_{mod}_{s['name']}(int);")
     m.append("int main(void) { int bad = 0;")
     for s in syms:
         mods = ["a", "b"] + (["exe"] if not (s["home"] != "exe" and s["exe_use"] in ("none",) or (s["exe_use"] == "call" and s["kind"] == "func" and s["home"] != "exe")) else [])
@@ -110,6 +123,8 @@ def sources(syms):
                 if mod == "exe" and s["home"] != "exe" and s["exe_use"] == "none":
                     continue
                 m.append(f"    if (call_{mod}_{s['name']}(7) != {want}) {{ printf(\"CALL {s['name']} from {mod}\\n\"); bad = 1; }}")
+                if not (mod == "exe" and s["home"] != "exe" and s["exe_use"] == "call"):
+                    m.append(f"    if (callp_{mod}_{s['name']}(7) != {want}) {{ printf(\"CALL-THROUGH-POINTER {s['name']} from {mod}\\n\"); bad = 1; }}")
         m.append("  }")
     m.append("  puts(bad ? \"MISMATCH\" : \"ALL-SAME\"); return bad; }")
     return {k: "\n".join(v) + "\n" for k, v in files.items()}
@@ -228,8 +243,8 @@ def run(chk, replay=None):
                     chk.tie_break(f"correspondence C38.exe_entry: the executable's .dynsym has {names[c]} for {rep['symbol']['name']}, the model says {names[table[it]]}", rep)
     chk.cov.update({
         "evaluations": stats["runs"], "distinct_nontrivial": stats["copy_relocated"] + stats["canonical_plt"],
-        "rule": "4-9 shared symbols per program (functions, objects of 4..4096 bytes, alignments 4..64, 15% weak, 15% with an alias) defined by lib a, lib b or the executable; the executable "
-                "takes addresses / reads data, only calls, or ignores each; built non-PIC/non-PIE, PIE, PIE -fno-plt, each with lazy and -z now binding; linked by wild through gcc -B; run",
+        "rule": "4-9 shared symbols per program (functions — a third of the library ones STT_GNU_IFUNC —, objects of 4..4096 bytes, alignments 4..64, 15% weak, 15% with an alias) defined by lib a, lib b or the executable; the executable "
+                "takes addresses (and calls through them) / reads data, only calls, or ignores each; built non-PIC/non-PIE, PIE, PIE -fno-plt, each with lazy and -z now binding; linked by wild through gcc -B; run",
         "stats": stats,
     })
     return chk.finish(TRUSTED)
